@@ -207,7 +207,7 @@ def main():
             "enable": "engine S depends on /repo/nexosim with features=[\"verif-hooks\"]; the loom/shuttle mirrors enable the same feature",
             "baseline_off_cmd": BASELINE_OFF,
             "source_commits": ["fadbd29"],
-            "fix_commits": ["bd7a63b", "ac58999", "c54922d", "4c18616", "c9690c2", "abbe7ca", "6bd1e08"],
+            "fix_commits": ["bd7a63b", "ac58999", "c54922d", "4c18616", "c9690c2", "abbe7ca", "6bd1e08", "d77e332"],
             "add_only": True,
         },
         "engines": [
